@@ -88,6 +88,7 @@ def _plan(draw, max_len, narrow=True):
         n = max(n, draw(st.integers(4, max(4, max_len))))
     vals = [draw(st.sampled_from(pool)) for _ in range(n)]
     groups = [draw(st.integers(0, ngroups)) for _ in range(n)]
+    used_before = draw(st.integers(0, 3)) == 0
     if draw(st.integers(0, 19 if h != "mode" else 3)) == 0:
         # long columns (65 .. 2049 elements, groups of up to a thousand rows) laid out by an arithmetic pattern over
         # the pool: beyond any size threshold at which a kernel might switch algorithms
@@ -126,7 +127,7 @@ def _plan(draw, max_len, narrow=True):
     # further helpers on the same column as later summaries of the same aggregate call
     extra = draw(st.lists(st.sampled_from(["first", "last", "nth1", "count", "min", "max", "count_unique_dropna"]),
                           max_size=2, unique=True))
-    return {"kind": kind, "helper": h, "vals": vals, "groups": groups, "args": args, "extra": extra}
+    return {"kind": kind, "helper": h, "vals": vals, "groups": groups, "args": args, "extra": extra, "helpers_used_before": used_before}
 
 
 def strategy(tier):
@@ -213,8 +214,17 @@ def check(plan, ctx):
         return
     di.USE_NUMBA = True
     data._group_colnames = ()
+    sums = _summaries(plan)
+    if plan.get("helpers_used_before") and plan["kind"] in ("i", "b", "d", "t"):
+        # history: the very same helper objects summarised a frame whose column "x" is of another kind (float) before
+        other = di.DataFrame({"g": np.array([1, 1, 2]).view(di.DataFrameColumn), "x": build.column("f", [0.5, gen.NAN, 2.5])})
+        try:
+            other.group_by("g").aggregate(**sums)
+        except Exception:
+            pass
+        ctx.cls("helper_objects_used_on_a_float_column_before")
     rall = ctx.call(f"aggregate(y={plan['helper']}('x'), ...) with USE_NUMBA=True",
-                    lambda: data.group_by("g").aggregate(**_summaries(plan)))
+                    lambda: data.group_by("g").aggregate(**sums))
     di.USE_NUMBA = False
     data._group_colnames = ()
     if build.snap_frame(data) != before:
